@@ -27,6 +27,8 @@ macro_rules! with_world {
     ($name:expr, $body:ident, $($args:expr),*) => {
         match $name {
             "chunk" => $body::<worlds::chunk::ChunkWorld>($($args),*),
+            "box" => $body::<worlds::boxw::BoxWorld>($($args),*),
+            "stream" => $body::<worlds::stream::StreamWorld>($($args),*),
             other => {
                 eprintln!("unknown world {} in this build ({})", other, plan::build_name());
                 2
